@@ -276,6 +276,15 @@ def for_with_invariant(interp, node, frame, lc, key, it):
             continue
         ty = lc.havoc_types.get(v)
         frame.locals[v] = ty.fresh(ctx, v + '@loop') if ty is not None else havoc_like(ctx, cur, v + '@loop')
+    for path in lc.modifies:
+        if '.' in path:
+            objname, attr = path.split('.', 1)
+            obj = frame.lookup(objname)
+            ty = lc.havoc_types.get(path)
+            if ty is not None:
+                interp.setattr(obj, attr, ty.fresh(ctx, path + '@loop'))
+            else:
+                interp.setattr(obj, attr, havoc_like(ctx, interp.getattr(obj, attr), path + '@loop'))
     for v, fn in (lc.defines or {}).items():
         frame.locals[v] = _call_named(interp, fn, frame, lc)
     ctx.assume(_call_inv(interp, lc.invariant, frame, lc))
